@@ -111,6 +111,9 @@ def decode(it, spec, terms, assume=True):
     if spec == "dyn":
         return VDyn(terms[0]), terms[1:]
     if spec.startswith("atom:"):
+        if assume:
+            dom = it.world.atom_domain(spec[5:])
+            it.sadd(sym.sor(*[terms[0] == c for c in dom]))
         return VAtom(terms[0]), terms[1:]
     if spec.startswith("opt:"):
         inner, rest = decode(it, spec[4:], terms[1:], assume)
